@@ -277,7 +277,7 @@ theorem wif_roundtrip_core (C : WalletCrypto) (key : Bytes) (ver : UInt8) (compr
       have h0 : (ver :: (key ++ [1]) ++ (C.shaHash (ver :: (key ++ [1]))).take 4).headD 0 = ver := rfl
       generalize (ver :: (key ++ [1]) ++ (C.shaHash (ver :: (key ++ [1]))).take 4) = pkb at *
       simp only [l2, Nat.lt_irrefl, ↓reduceIte, Nat.reduceLT, Nat.reduceSub, t1, d1, ne_eq, not_true_eq_false, k1,
-        h0, g33, and_self, decide_true, newPrivateAddr, hpub]
+        h0, g33, and_self, decide_true, newPrivateAddr, hpub, and_false]
     | false =>
       simp only [hpl, Bool.false_eq_true, ↓reduceIte, Nat.reduceEqDiff, Except.ok.injEq] at hs
       have hrt := hb58 _ hs.symm
